@@ -18,7 +18,9 @@ RunClause(base, r) ==
     ELSE IF r.dtype # base.dtype THEN "SameDtype"
     ELSE IF "adtype" \in DOMAIN r /\ r.adtype # r.dtype THEN "AnnouncedDtype"   \* a lazy result computes to the dtype it announces
     ELSE IF r.kind # "dimorder" /\ r.dims # base.dims THEN "SameDims"
-    ELSE IF r.kind = "dimorder" /\ {r.dims[i] : i \in 1..Len(r.dims)} # {base.dims[i] : i \in 1..Len(base.dims)} THEN "SameDims"
+    \* another stored layout: the same dimensions per variable, in whatever order ("dimsets": per variable, sorted)
+    ELSE IF r.kind = "dimorder" /\ "dimsets" \in DOMAIN r /\ r.dimsets # base.dimsets THEN "SameDims"
+    ELSE IF r.kind = "dimorder" /\ "dimsets" \notin DOMAIN r /\ {r.dims[i] : i \in 1..Len(r.dims)} # {base.dims[i] : i \in 1..Len(base.dims)} THEN "SameDims"
     ELSE IF r.coords # base.coords THEN "SameCoords"
     ELSE "ok"
 
